@@ -10,7 +10,8 @@ from vlib import *
 BASE = 1600000000 * 10**9
 TIMES = [BASE, BASE + 1, BASE + 2, BASE - 1, BASE + 10**9, BASE - 10**9, BASE + 5, BASE + 1000]
 NAMES = ["a", "b", "B", "a.txt", "a-b", "d1", "d2", "src", "out", "x.go", "y.go", "z", "lib", "c",
-         "app", "app.go", "application", "build", "build-tools", "out.d"]      # names that are string prefixes of their siblings
+         "app", "app.go", "application", "build", "build-tools", "out.d",
+         "out1.bin", "notes.txt", "notes.txt ", " lead", "drafts ", "q?"]      # glob metacharacters and surrounding blanks are ordinary name characters      # names that are string prefixes of their siblings
 
 
 def gen_tree(rng, depth, maxdepth):
@@ -159,7 +160,7 @@ def gen_case(rng, root, i):
         if r < 0.70:
             return rng.choice(paths)
         if r < 0.80:
-            return rng.choice(["missing", "d1/nope", "zz/y"])
+            return rng.choice(["missing", "d1/nope", "zz/y", "", " ", "$UNSETVAR", "notes.txt  ", "out[1].bin"])
         if r < 0.90:
             return rng.choice(["$V", "${V}", "$V/$W", "./$V"] + (["${S}${K}", "${S}$K", "$S$K"] if "S" in env else []))
         return "./" + rng.choice(paths)
@@ -183,7 +184,7 @@ def gen_case(rng, root, i):
     if fn in ("NewestModTime", "OldestModTime"):
         sources = [s for s in sources if "$" not in s] or [rng.choice(paths)]
     r = rng.random()
-    dst = rng.choice(paths) if r < 0.65 else (rng.choice(["missing-dst", "d1/none"]) if r < 0.78 else rng.choice(["$V", "${V}", "./$V", "$V/", "$W"] + (["${S}${K}", "$S$K", "${S}$K"] * 2 if "S" in env else [])))
+    dst = rng.choice(paths) if r < 0.65 else (rng.choice(["missing-dst", "d1/none", "out[1].bin", "a*", "?", "notes.txt  ", "[ab]"]) if r < 0.78 else rng.choice(["$V", "${V}", "./$V", "$V/", "$W"] + (["${S}${K}", "$S$K", "${S}$K"] * 2 if "S" in env else [])))
     if fn in ("Path", "Glob", "Dir") and rng.random() < 0.3:
         # the destination lies INSIDE a source that is walked / matched, next to siblings whose names extend its name
         # (app, app.go, application/): everything beneath the source counts, the destination's namesakes included
